@@ -519,4 +519,29 @@ def _omit_default_of_empty_factories(ctx):
                     ctx.violation("round-trip-lost:omit-default-of-an-empty-factory", f"{obj!r} -> {d.value!r} -> {back!r:.160}", info)
 
 
-DIRECTED = {"omit-default-of-empty-factories": _omit_default_of_empty_factories, "map-reaches-every-descendant": _map_reaches_every_descendant, "enum-class-as-single-predicate": _enum_class_as_single_predicate, "omit-default-unhashable-default": _omit_default_unhashable, "collected-extras-known-branches": _collected_extras_known_branches}
+def _generic_alias_as_single_predicate(ctx):
+    """'Both parameters take predicate or iterable of predicates ... you can filter fields based on their type': ONE parametrised generic is
+    one predicate although typing aliases are iterable since Python 3.11 (defect #92), in every spelling and next to the list form."""
+    import typing as t  # noqa: PLC0415
+    from dataclasses import field, make_dataclass  # noqa: PLC0415
+
+    from adaptix import Retort, name_mapping  # noqa: PLC0415
+
+    D = make_dataclass("DG", [("a", int), ("b", t.List[int], field(default_factory=list)), ("c", t.Optional[int], None), ("d", t.Dict[str, int], field(default_factory=dict))])
+    x = D(1, [2], 3, {"k": 4})
+    full = {"a": 1, "b": [2], "c": 3, "d": {"k": 4}}
+    cases = [({"skip": t.List[int]}, ["b"]), ({"skip": [t.List[int]]}, ["b"]), ({"skip": list[int]}, ["b"]), ({"skip": t.Dict[str, int]}, ["d"]), ({"skip": t.Optional[int]}, ["c"]),
+             ({"skip": (t.List[int], "c")}, ["b", "c"]), ({"only": t.List[int]}, ["a", "c", "d"]), ({"only": [t.List[int], t.Dict[str, int]]}, ["a", "c"]), ({"only": t.Dict[str, int]}, ["a", "b", "c"])]
+    for kw, dropped in cases:
+        want = {k: v for k, v in full.items() if k not in dropped}
+        out = attempt(lambda kw=kw: Retort(recipe=[name_mapping(D, **kw)]).dump(x))
+        ctx.evaluated(("generic-alias-predicate", repr(kw)), nontrivial=True)
+        ctx.count("dumps")
+        if out.kind != "ok" or out.value != want:
+            ctx.violation("dump-layout-mismatch:generic-alias-predicate", f"name_mapping(D, {kw}): {out!r:.200}, documented {want!r}", {"kw": repr(kw)})
+    out = attempt(lambda: Retort(recipe=[name_mapping(D, omit_default=t.List[int])]).dump(D(1)))
+    if out.kind != "ok" or out.value != {"a": 1, "c": None, "d": {}}:
+        ctx.violation("dump-layout-mismatch:generic-alias-predicate", f"name_mapping(D, omit_default=List[int]): {out!r:.200}", {})
+
+
+DIRECTED = {"generic-alias-as-single-predicate": _generic_alias_as_single_predicate, "omit-default-of-empty-factories": _omit_default_of_empty_factories, "map-reaches-every-descendant": _map_reaches_every_descendant, "enum-class-as-single-predicate": _enum_class_as_single_predicate, "omit-default-unhashable-default": _omit_default_unhashable, "collected-extras-known-branches": _collected_extras_known_branches}
